@@ -31,6 +31,47 @@ Definition bounded (g : graph) (n : nat) : Prop := forall v w, edge g v w -> w <
 Definition in_range (n : nat) (qs : list (nat * nat)) : Prop :=
   forall a b, In (a, b) qs -> a < n /\ b < n.
 
-(** construction steps about the [n] variables of the model *)
+(** construction / edit steps about the [n] variables of the model *)
 Definition op_below (n : nat) (o : op) : Prop :=
-  match o with AddEq a b => a < n /\ b < n | Expire a => a < n end.
+  match o with
+  | AddEq a b | RemEq a b => a < n /\ b < n
+  | Expire a | RemAll a => a < n
+  end.
+
+(** well-formedness of the weak lists, kept by every edit (GraphProofs.step_wf) *)
+Definition dead_empty (g : graph) : Prop := forall x, alive g x = false -> wadj g x = [].
+Definition nodup_lists (g : graph) : Prop := forall x, NoDup (eqv g x).
+Definition irreflexive (g : graph) : Prop := forall x, ~ edge g x x.
+Definition wf (g : graph) : Prop := dead_empty g /\ symmetric g /\ nodup_lists g /\ irreflexive g.
+
+(** What an edit means for the connection graph (the edges after, in terms of the edges before). *)
+Definition spec_edge (g : graph) (o : op) (x y : nat) : Prop :=
+  match o with
+  | AddEq a b => edge g x y \/
+                 (alive g a = true /\ alive g b = true /\ a <> b /\ ((x = a /\ y = b) \/ (x = b /\ y = a)))
+  | RemEq a b => edge g x y /\ ~ ((x = a /\ y = b) \/ (x = b /\ y = a))
+  | RemAll a | Expire a => edge g x y /\ x <> a /\ y <> a
+  end.
+
+(** Histories of edits and questions. *)
+Definition event_below (n : nat) (e : event) : Prop :=
+  match e with Edit o => op_below n o | Ask _ a b => a < n /\ b < n end.
+
+(** the graph each question of a history is asked on *)
+Fixpoint graph_trace (n : nat) (g : graph) (h : list event) : list (graph * qkind * nat * nat) :=
+  match h with
+  | [] => []
+  | Edit o :: t => graph_trace n (freeze n (step g o)) t
+  | Ask k a b :: t => (g, k, a, b) :: graph_trace n g t
+  end.
+
+(** the right answer to a question on a given graph *)
+Definition ask_spec (g : graph) (k : qkind) (a b : nat) (r : bool) : Prop :=
+  match k with
+  | QIndirect => r = true <-> a <> b /\ connected g a b
+  | QDirect => r = true <-> edge g a b
+  | QUtil | QCached => r = true <-> a = b \/ connected g a b
+  end.
+
+Definition answered (q : graph * qkind * nat * nat) (r : option bool) : Prop :=
+  let '(g, k, a, b) := q in exists r0, r = Some r0 /\ ask_spec g k a b r0.
